@@ -186,6 +186,50 @@ def match(ctx: Any) -> List[Ob]:
                     okc = not touched
                     want = set()
                 obs.append(ob(R, f, f'{kname} record owned by {owner} name, expired={expired}', f'fields written: {sorted(want) if want else "none"}', okc, f'touched {sorted(touched)}'))
+    # ... and an unexpired address record of the host IS taken: an address that is not yet in the list of its family is put into
+    # that list (and no other) on every path; one that is already there stays there exactly once (moved to the front or left alone)
+    from .common import local_defs as _ldm
+
+    ldefs = _ldm(f)
+
+    def family_of(recv: ast.AST) -> Optional[str]:
+        a = self_attr(recv, me)
+        if a is None and isinstance(recv, ast.Name):
+            vals = [self_attr(v, me) for v in ldefs.get(recv.id, []) if v is not None]
+            a = vals[0] if len(vals) == 1 else None
+        return {'_ipv4_addresses': '4', '_ipv6_addresses': '6'}.get(a or '')
+
+    def eff_addr(node: Any, evl: Any) -> List[Any]:
+        out = []
+        for c in fd.node_calls(node, evl):
+            if isinstance(c.func, ast.Attribute) and call_name(c) in ('insert', 'append', 'add', 'remove', 'discard', 'pop', 'clear'):
+                fam = family_of(c.func.value)
+                if fam:
+                    out.append(('INS' if call_name(c) in ('insert', 'append', 'add') else 'REM') + fam)
+        if node.kind == 'stmt':
+            for t, st in attr_stores(node.ast):
+                if self_attr(t, me) in ('_ipv4_addresses', '_ipv6_addresses'):
+                    out.append('SET' + ('4' if '4' in t.attr else '6'))
+        return out
+
+    memb = [n for n in ast.walk(f.node) if isinstance(n, ast.Compare) and len(n.ops) == 1 and isinstance(n.ops[0], (ast.In, ast.NotIn)) and family_of(n.comparators[0])]
+    firsts = [n for n in ast.walk(f.node) if isinstance(n, ast.Compare) and len(n.ops) == 1 and isinstance(n.ops[0], (ast.Eq, ast.NotEq)) and any(isinstance(x, ast.Subscript) and family_of(x.value) for x in (n.left, n.comparators[0]))]
+    if len(memb) < 2:
+        raise AnalysisError('anchor vanished: the membership tests of the address lists in the record processor')
+    for ver in (4, 6):
+        for present, at_front in ((False, False), (True, False), (True, True)):
+            atoms_a: Dict[str, Any] = {f'type({rec})': kinds['A'], '.is_expired()': False, f'{rec}.key': 'k-host', f'{me}.key': 'k-inst', f'{me}.server_key': 'k-host', 'get_ip_address_object_from_record()': Sym('ip'), '.version': ver}
+            for n_ in memb:
+                atoms_a[norm(n_)] = present if isinstance(n_.ops[0], ast.In) else not present
+            for n_ in firsts:
+                atoms_a[norm(n_)] = at_front if isinstance(n_.ops[0], ast.Eq) else not at_front
+            oc_a, und_a = traces(ctx, f, atoms_a, eff_addr, loop_bound=1)
+            nets = set()
+            for t in oc_a:
+                lab = [x for x in strip_ret(t) if isinstance(x, str)]
+                nets.add((lab.count('INS4') - lab.count('REM4'), lab.count('INS6') - lab.count('REM6'), any(x.startswith('SET') for x in lab)))
+            want_net = ((0, 0, False) if present else ((1, 0, False) if ver == 4 else (0, 1, False)))
+            obs.append(ob(R, f, f'unexpired IPv{ver} address record of the host, address {"already listed" + (" first" if at_front else "") if present else "not yet listed"}', 'the address ends up in the list of its family exactly once' + ('' if present else ' (it is added there, and nowhere else, on every path)'), nets == {want_net} and not und_a, f'net inserts (v4, v6, list replaced) per path: {sorted(nets)}; undecided {und_a}'))
     # an SRV record that moves the instance to another host: both address lists are replaced (assigned afresh from the
     # cache records of the new host), never merged into -- else addresses of the previous host survive and count as known
     cfg = cfg_of(f.node)
@@ -506,6 +550,23 @@ def bound(ctx: Any) -> List[Ob]:
         )
         scans = {tuple(sorted(x for x in strip_ret(t) if isinstance(x, str) and x.startswith('SCAN:'))) for t in ocl}
         obs.append(ob(R, lc, f'host unchanged, SRV {"cached" if srv_cached else "not cached"}', 'both address types of the known host are read from the cache (A and AAAA scanned on every path)', bool(scans) and all(set(sc) >= {'SCAN:1', 'SCAN:28'} for sc in scans), f'scans on the feasible paths: {sorted(scans)}; undecided {undl}'))
+    # every record read from the cache is handed to the record processor, with the time of the lookup (which rejects it when
+    # it has expired): each loop over cached records processes its own loop variable once per trip
+    lcfg = cfg_of(lc.node)
+    n_loops = 0
+    for ln_ in [n for n in lcfg.nodes if n.kind == 'for' and isinstance(n.ast.target, ast.Name)]:
+        n_loops += 1
+        tv = ln_.ast.target.id
+
+        def eff_p(node: Any, evl: Any, tv: str = tv) -> List[Any]:
+            return [('PROC', tuple(norm(a) for a in c.args)) for c in fd.node_calls(node, evl) if call_name(c) == '_process_record_threadsafe']
+
+        oc_p, _ = fd.run_paths(prog, lc.module, lcfg, {}, eff_p, start=ln_, stop=lambda n, ln_=ln_: n is ln_, loop_bound=1, for_iter=lambda n, e: True)
+        per = {tuple(x for x in strip_ret(t) if isinstance(x, tuple) and x[0] == 'PROC') for t in oc_p}
+        good_p = bool(per) and all(len(sq) == 1 and len(sq[0][1]) >= 3 and sq[0][1][1] == tv and sq[0][1][2] == lc.params[2] for sq in per)
+        obs.append(ob(R, lc, ln_.ast, f'every cached record of `{norm(ln_.ast.iter)[:60]}` is handed to the record processor with the time of the lookup', good_p, f'calls per trip: {sorted(map(str, per))[:2]}'))
+    if n_loops < 2:
+        raise AnalysisError('anchor vanished: the loops over cached records in _load_from_cache')
     ret = [r for r in walk_local_ordered(lc.node) if isinstance(r, ast.Return)]
     obs.append(ob(R, lc, ret[0].value if ret else 'return', 'the cache suffices iff the description is complete afterwards', len(ret) == 1 and norm(ret[0].value) == f'{lc.params[0]}._is_complete'))
     return obs
